@@ -70,6 +70,11 @@ Unified(p) ==
 \* the property's preconditions: omega_0*dt < 2, damping >= 0
 Precond(u) == RLt(u.w2, RI(4)) /\ RLe(RZ, u.g)
 Couples(u) == ~RIsZ(u.a) \/ ~RIsZ(u.b)
+\* placement-time acceptance of a pole axis (compute_pole_coefficients_per_axis / _tensor, the variant placement uses):
+\* a ValueError is raised iff the axis is ACTIVE (it couples: a # 0 OR b # 0) and omega_0*dt >= 2; an axis that couples to
+\* nothing is exempt.  guard = "and" is the deliberately wrong rule (negative instance): it never fires for Lorentz/Drude.
+AxisActive(u, guard) == IF guard = "and" THEN ~RIsZ(u.a) /\ ~RIsZ(u.b) ELSE ~RIsZ(u.a) \/ ~RIsZ(u.b)
+Accepts(u, guard) == ~(AxisActive(u, guard) /\ ~RLt(u.w2, RI(4)))
 
 \* ---------------------------------------------------------------- recurrence coefficients (documented map)
 \*   D = 1 + g/2,  c1 = (2 - w2)/D,  c2 = -(1 - g/2)/D,  c3 = (a - b)/D,  c4 = b/D
@@ -136,7 +141,7 @@ RootsInDisc(c) ==
 \* characteristic equation  (z - 2 + 1/z)(eps + sum_p c3_p/(z - c1_p - c2_p/z)) = -4 nu^2  exists for
 \* nu^2 = eps - sum_p c3_p/(1 + c1_p - c2_p); above it a root has left the unit circle through z = -1.
 \* NyqLoad(c) = c3/(1 + c1 - c2)  ( = a/(4 - w2) for Lorentz/Drude poles )
-NyqLoad(c) == IF Masked(c) THEN RZ ELSE RDiv(c.c3, RAdd(RI(1), RSub(c.c1, c.c2)))
+NyqLoad(c) == IF Masked(c) \/ RIsZ(c.c3) THEN RZ ELSE RDiv(c.c3, RAdd(RI(1), RSub(c.c1, c.c2)))
 RECURSIVE SumLoad(_, _)
 SumLoad(cs, k) == IF k = 0 THEN RZ ELSE RAdd(SumLoad(cs, k - 1), NyqLoad(cs[k]))
 \* cf2 = courant_factor^2, eps = background permittivity, cs = sequence of coefficient records of the cell's poles
